@@ -137,6 +137,9 @@ def instances(tier):
         sp = spec('curve', (p,), ((1,),), rational=True)
         add(sp, [{0: 1}], via='method')
         add(sp, [{0: p + 1}], via='method')
+        # a rejected insertion must not poison later valid ones
+        add(spec('curve', (p,), ((1,),), rational=False), [{0: p + 1}, {0: 1}])
+        add(spec('curve', (p,), ((1,),), rational=True), [{0: p + 1}, {0: 1}], via='method')
         # histories: independent symbolic parameters
         add(spec('curve', (p,), ((1,),), rational=False), [{0: 1}, {0: 1}])
         if p >= 2:
@@ -178,6 +181,8 @@ def instances(tier):
                 add(sp, [{0: 1, 1: 1}], timeout=900)
     add(spec('surface', (1, 2), ((1,), ()), rational=True), [{0: 1, 1: 2}], via='method', timeout=900)
     add(spec('surface', (2, 1), ((), (1,)), rational=False), [{0: 1}, {1: 1}], timeout=900)
+    add(spec('surface', (2, 1), ((), (1,)), rational=False), [{1: 2}, {0: 1}, {1: 1}], timeout=900)
+    add(spec('surface', (1, 2), ((1,), ()), rational=True), [{0: 2}, {1: 1}], via='method', timeout=900)
     if not quick:
         add(spec('surface', (2, 2), ((1,), (1,)), rational=False), [{0: 2}, {1: 1}, {0: 1}], timeout=1800)
     # volumes (sizes pairwise different)
